@@ -15,17 +15,22 @@ THEOREMS = [
     "PorepyVerif.C30.pt_seg_minimal",
     "PorepyVerif.C30.seg_seg_closest_on_segs",
     "PorepyVerif.C30.seg_seg_minimal",
+    "PorepyVerif.C30.seg_seg_minimal_int",
     "PorepyVerif.C30.seg_set_entry",
     "PorepyVerif.C30.pt_poly_inside_plane_minimal",
     "PorepyVerif.C30.pt_poly_outside_boundary_minimal",
     "PorepyVerif.C30.pt_poly_le_boundary",
+    "PorepyVerif.C30.membership_convex",
+    "PorepyVerif.C30.convex_nearest_on_boundary",
+    "PorepyVerif.C30.pt_polygon_minimal_convex",
+    "PorepyVerif.C30.seg_poly_minimal_convex",
     "PorepyVerif.C30.seg_poly_cross_sound",
     "PorepyVerif.C30.seg_poly_general_min",
 ]
 LEAN_MODULES = ["PorepyVerif.C30.Props"]
 AUDIT = "PorepyVerif/C30/Audit.lean"
 DRIVER = "PorepyVerif/C30/Driver.lean"
-N = {"quick": 400, "thorough": 50000}
+N = {"quick": 800, "thorough": 50000}
 TOL_SS = F(1, 10**8)      # SMALL_TOLERANCE factor of segment_segment_set
 TOL_P = F(1, 10**5)       # default tol of points_polygon / segments_polygon
 RULE = ("one call of point_pointset / points_segments / segment_segment_set / segment_set / points_polygon / segments_polygon per case, "
@@ -40,29 +45,24 @@ RULE = ("one call of point_pointset / points_segments / segment_segment_set / se
 TRUSTED = [
     "modelled, not verified: numpy broadcasting / masking glue of the vectorised kernels, np.argmin tie order, np.ma comparisons",
     "modelled, not verified: project_plane_matrix / rotation to the xy-plane (model projects with an un-normalised Newell normal and drops the dominant axis instead)",
-    "correspondence-only: that the winding-number test decides membership in the polygon (C31), and that for a point whose projection is outside the polygon "
-    "the nearest polygon point lies on the boundary (the theorems reduce polygon distances to plane distance + point-segment / segment-segment minima)",
-    "the two tolerance devices of segment_segment_set (parallel test, snap of small numerators) are outside seg_seg_minimal: its hypothesis `exact = true` "
-    "(decidable, reported per case by the driver, true for every generated case) says they do not fire on non-zero quantities",
+    "NON-CONVEX polygons only: that the winding-number test decides membership, and that a point whose projection is outside has its nearest polygon "
+    "point on the boundary, are tied by correspondence + exact rational oracle (for CONVEX planar polygons both are theorems: membership_convex, "
+    "convex_nearest_on_boundary, pt_polygon_minimal_convex, seg_poly_minimal_convex)",
+    "the tolerance devices (parallel test and snap of segment_segment_set, |dz| > tol of segments_polygon) are outside the minimality theorems: explicit decidable "
+    "hypotheses (`exact = true`, reported per case by the driver and true for every generated case; incline zero or above tol) say they do not fire on non-zero "
+    "quantities; seg_seg_minimal_int discharges `exact = true` for integer coordinates with tol*|u|^2*|v|^2 <= 1",
 ]
 EXPLANATION = ("FULL for point-point, point-segment, segment-segment (minimality over the whole segment(s), all branches incl. parallel and zero-length, "
-               "proved via the KKT conditions of the convex quadratic); CORE (partial) for polygons: distance = plane distance when the projection is "
-               "inside, else minimum over boundary segments; segment-polygon = crossing point or min(end points, boundary segments); membership "
-               "and sufficiency of these candidates are tied by correspondence + exact rational oracle only.")
+               "proved via the KKT conditions of the convex quadratic; unconditional for integer data under an explicit bound), and FULL for CONVEX planar "
+               "polygons: the winding test as coded accepts exactly the points of the closed polygon off its boundary (membership_convex), the returned "
+               "point-polygon distance is the minimum over the whole polygon and is attained at the returned point (pt_polygon_minimal_convex), and the "
+               "segment-polygon distance is a lower bound for all pairs of points (seg_poly_minimal_convex). CORE (partial) for NON-CONVEX polygons: distance = "
+               "plane distance when the projection is accepted, else minimum over boundary segments; segment-polygon = crossing point or min(end points, "
+               "boundary segments); membership and sufficiency of these candidates are tied there by correspondence + exact rational oracle only. "
+               "The length scale (2^-20..2^12) is a stratified generator dimension of every function; all tolerances of the oracle and the comparison are "
+               "relative to the extent of the configuration.")
 ASSUMPTIONS = ["inputs are dyadic with few bits, so the rational model and binary64 agree up to the final divisions / square roots (class T, 1e-9)",
                "polygons are planar, simple, with at least three non-collinear vertices"]
-
-KNOWN_CLASS_KEYS = {
-    "points_segments:zero-length-segment:nan",
-    "segment_segment_set:zero-length-segment:nan",
-    "segment_segment_set:tolerance-not-scale-invariant",
-    "segment_set:raises:IndexError",
-    "segment_set:raises:ValueError",
-    "points_polygon:projection-on-edge-extension",
-    "segments_polygon:point-on-edge-extension",
-    "segments_polygon:in-plane-only-end-inside:closest-point-is-start",
-}
-
 
 # ----------------------------------------------------------------------------- exact rational geometry (oracle side)
 def sub(a, b):
@@ -397,13 +397,23 @@ def _knife_edge(case):
     return False
 
 
+SCALES = list(range(-20, -7)) + [-4, 4, 8, 10, 12]
+
+
 def gen_case(rng, tier):
-    """cases whose decisions are within 1e-6 (relative) of the kernel's parallel test are dropped and counted (DESIGN section 3)"""
+    """cases whose decisions are within 1e-6 (relative) of the kernel's parallel test are dropped and counted (DESIGN section 3).
+    The length scale is a stratified dimension of EVERY function: three cases in ten are rescaled by an exact power of two
+    (2^-20 .. 2^12, i.e. lengths from 1e-5 to 6e4; the polygon tolerance argument `tol` is rescaled with the geometry)."""
     while True:
         c = _gen_case(rng, tier)
         if not _knife_edge(c):
-            return c
+            break
         DROPPED["knife-edge"] += 1
+    if not c.get("k") and rng.random() < 0.3:
+        # half of the rescaled cases sit at the ends of the range, where absolute tolerances in the code would bite
+        c["k"] = rng.choice([-20, -19, -18, 11, 12]) if rng.random() < 0.5 else rng.choice(SCALES)
+        c["tags"] = sorted(set(c["tags"]) | {"scaled"})
+    return c
 
 
 def _gen_case(rng, tier):
@@ -544,7 +554,7 @@ def _call(case):
             if kind == "ptpt":
                 q = _pts(case, "q")
                 arr = cols(q) if q else np.zeros((case["nd"], 0))
-                return D.point_pointset(np.array(fl(dec(case["p"]))), arr)
+                return D.point_pointset(np.array(fl(dec(case["p"], case.get("k", 0)))), arr)
             if kind == "ptseg":
                 segs = _segs(case, "segs")
                 return D.points_segments(cols(_pts(case, "pts")), cols([s[0] for s in segs]), cols([s[1] for s in segs]))
@@ -557,10 +567,10 @@ def _call(case):
                 segs = _segs(case, "segs")
                 return D.segment_set(cols([s[0] for s in segs]), cols([s[1] for s in segs]))
             if kind == "ptpoly":
-                return D.points_polygon(cols(_pts(case, "pts")), cols(_pts(case, "poly")))
+                return D.points_polygon(cols(_pts(case, "pts")), cols(_pts(case, "poly")), tol=float(TOL_P * F(2) ** case.get("k", 0)))
             if kind == "segpoly":
                 segs = _segs(case, "segs")
-                return D.segments_polygon(cols([s[0] for s in segs]), cols([s[1] for s in segs]), cols(_pts(case, "poly")))
+                return D.segments_polygon(cols([s[0] for s in segs]), cols([s[1] for s in segs]), cols(_pts(case, "poly")), tol=float(TOL_P * F(2) ** case.get("k", 0)))
     raise ValueError(kind)
 
 
@@ -600,18 +610,19 @@ def model_ops(case):
     kind = case["kind"]
     k = case.get("k", 0)
     E = lambda v: enc(dec(v, k))
+    Es = lambda segs: [[E(a), E(b)] for a, b in segs]
     if kind == "ptpt":
-        return [{"op": "ptpt", "p": case["p"], "q": case["q"]}]
+        return [{"op": "ptpt", "p": E(case["p"]), "q": [E(q) for q in case["q"]]}]
     if kind == "ptseg":
-        return [{"op": "ptseg", "pts": case["pts"], "segs": case["segs"]}]
+        return [{"op": "ptseg", "pts": [E(x) for x in case["pts"]], "segs": Es(case["segs"])}]
     if kind == "segseg":
-        return [{"op": "segseg", "tol": frac(TOL_SS), "p0": E(case["p0"]), "p1": E(case["p1"]), "set": [[E(a), E(b)] for a, b in case["set"]]}]
+        return [{"op": "segseg", "tol": frac(TOL_SS), "p0": E(case["p0"]), "p1": E(case["p1"]), "set": Es(case["set"])}]
     if kind == "segset":
-        return [{"op": "segset", "tol": frac(TOL_SS), "segs": case["segs"]}]
+        return [{"op": "segset", "tol": frac(TOL_SS), "segs": Es(case["segs"])}]
     if kind == "ptpoly":
-        return [{"op": "ptpoly", "pts": case["pts"], "poly": case["poly"]}]
+        return [{"op": "ptpoly", "pts": [E(x) for x in case["pts"]], "poly": [E(x) for x in case["poly"]]}]
     if kind == "segpoly":
-        return [{"op": "segpoly", "tolP": frac(TOL_P), "tolS": frac(TOL_SS), "segs": case["segs"], "poly": case["poly"]}]
+        return [{"op": "segpoly", "tolP": frac(TOL_P * F(2) ** k), "tolS": frac(TOL_SS), "segs": Es(case["segs"]), "poly": [E(x) for x in case["poly"]]}]
     raise ValueError(kind)
 
 
@@ -628,11 +639,29 @@ def _scale2(points):
     return m
 
 
-def _tol_for(case):
-    if case["kind"] == "segseg":
-        pts = [dec(case["p0"], case.get("k", 0)), dec(case["p1"], case.get("k", 0))] + [p for s in _segs(case, "set") for p in s]
-        return 1e-9 * float(_scale2(pts))
-    return 1e-9
+def _all_points(case):
+    """all points of the case, at the scale of the case"""
+    k = case.get("k", 0)
+    pts = []
+    for key in ("p", "p0", "p1"):
+        if key in case:
+            pts.append(dec(case[key], k))
+    for key in ("q", "pts", "poly"):
+        if key in case:
+            pts += [dec(v, k) for v in case[key]]
+    for key in ("segs", "set"):
+        if key in case:
+            pts += [dec(x, k) for sg in case[key] for x in sg]
+    return pts
+
+
+def _scales(case):
+    """(S2, C2): squared extent of the configuration and squared size of the largest coordinate vector; every tolerance is
+    relative to these, so that the checks mean the same at every length scale"""
+    pts = _all_points(case)
+    s2 = float(_scale2(pts))
+    c2 = max([float(nsq(q)) for q in pts] + [s2])
+    return max(s2, 1e-300), max(c2, 1e-300)
 
 
 def _cmp_num(a, b, path, rel, abs_):
@@ -656,41 +685,52 @@ def compare(impl, model, case):
     kind = case["kind"]
     if isinstance(impl, dict) and "err" in impl or isinstance(model, dict) and "err" in model:
         return None if impl == model else f"error kinds differ: {impl} vs {model}"
-    if kind in ("ptpt",):
-        return deep_compare(impl, model, tol=1e-9)
-    if kind == "ptseg":
-        return deep_compare(impl["d2"], model["d2"], ".d2", 1e-9) or deep_compare(impl["cp"], model["cp"], ".cp", 1e-9)
+    S2, C2 = _scales(case)
+    A2, A1 = 1e-9 * S2, 1e-9 * math.sqrt(C2)   # absolute parts of the tolerances for squared distances / coordinates
+
+    def tree(a, b, path, abs_):
+        if isinstance(a, list) and isinstance(b, list):
+            if len(a) != len(b):
+                return f"{path}: length {len(a)} vs {len(b)}"
+            for i, (x, y) in enumerate(zip(a, b)):
+                r = tree(x, y, f"{path}[{i}]", abs_)
+                if r:
+                    return r
+            return None
+        return _cmp_num(a, b, path, 1e-9, abs_)
+
+    if kind == "ptpt":
+        return tree(impl["d2"], model["d2"], ".d2", A2)
+    if kind in ("ptseg", "segset"):
+        return tree(impl["d2"], model["d2"], ".d2", A2) or tree(impl["cp"], model["cp"], ".cp", A1)
     if kind == "segseg":
         if len(impl) != len(model):
             return f"length {len(impl)} vs {len(model)}"
-        s2 = _tol_for(case) / 1e-9
         for j, (a, b) in enumerate(zip(impl, model)):
             if not b["exact"]:
-                continue  # tolerance band of the kernel: counted in stats, outside the comparison
-            r = (_cmp_num(a["d2"], b["d2"], f"[{j}].d2", 1e-9, 1e-9 * s2) or _cmp_vec(a["cp1"], b["cp1"], f"[{j}].cp1", 1e-9 * math.sqrt(s2))
-                 or _cmp_vec(a["cp2"], b["cp2"], f"[{j}].cp2", 1e-9 * math.sqrt(s2)))
+                continue  # tolerance band of the kernel: outside the comparison (none generated, see _knife_edge)
+            r = (_cmp_num(a["d2"], b["d2"], f"[{j}].d2", 1e-9, A2) or _cmp_vec(a["cp1"], b["cp1"], f"[{j}].cp1", A1)
+                 or _cmp_vec(a["cp2"], b["cp2"], f"[{j}].cp2", A1))
             if r:
                 return r
         return None
-    if kind == "segset":
-        return deep_compare(impl["d2"], model["d2"], ".d2", 1e-9) or deep_compare(impl["cp"], model["cp"], ".cp", 1e-9)
     if kind == "ptpoly":
         poly = _pts(case, "poly")
         for i, (a, b, p) in enumerate(zip(impl, model, _pts(case, "pts"))):
             _, _, m, unique = x_pt_poly(p, poly)
-            r = _cmp_num(a["d2"], b["d2"], f"[{i}].d2", 1e-9, 1e-9)
+            r = _cmp_num(a["d2"], b["d2"], f"[{i}].d2", 1e-9, A2)
             if not r and m != 0 and a["inside"] != b["inside"]:
                 r = f"[{i}].inside: {a['inside']} vs {b['inside']}"
             if not r and unique:
-                r = _cmp_vec(a["cp"], b["cp"], f"[{i}].cp", 1e-8)
+                r = _cmp_vec(a["cp"], b["cp"], f"[{i}].cp", 10 * A1)
             if r:
                 return r
         return None
     if kind == "segpoly":
         for i, (a, b) in enumerate(zip(impl, model)):
-            r = _cmp_num(a["d2"], b["d2"], f"[{i}].d2", 1e-9, 1e-9)
+            r = _cmp_num(a["d2"], b["d2"], f"[{i}].d2", 1e-9, A2)
             if not r and b["branch"] == 0:  # unique only there: any common point is a valid answer in branch 1, ties in branch 2
-                r = _cmp_vec(a["cp"], b["cp"], f"[{i}].cp(branch {b['branch']})", 1e-8)
+                r = _cmp_vec(a["cp"], b["cp"], f"[{i}].cp(branch {b['branch']})", 10 * A1)
             if r:
                 return r
         return None
@@ -711,6 +751,8 @@ def oracle(case):
     on their objects and realise that distance."""
     kind = case["kind"]
     fails = []
+    S2, C2 = _scales(case)
+    S = math.sqrt(C2)
     try:
         out = _call(case)
     except Exception as e:
@@ -718,13 +760,13 @@ def oracle(case):
             return {"key": f"segment_set:raises:{type(e).__name__}", "what": f"segment_set({len(case['segs'])} segments, {case['nd']}-d) raised {type(e).__name__}: {str(e)[:80]}"}
         return {"key": f"{kind}:raises:{type(e).__name__}", "what": f"{kind} raised {type(e).__name__}: {str(e)[:120]} on {case}"}
     if kind == "ptpt":
-        p, qs = dec(case["p"]), _pts(case, "q")
+        p, qs = dec(case["p"], case.get("k", 0)), _pts(case, "q")
         if len(out) != len(qs):
             _fail(fails, "point_pointset:length", f"{len(out)} distances for {len(qs)} points")
         else:
             for i, q in enumerate(qs):
                 ex = float(nsq(sub(p, q)))
-                if not _near(float(out[i]) ** 2, ex, 1e-9 * max(1, ex)):
+                if not _near(float(out[i]) ** 2, ex, 1e-9 * max(S2, ex)):
                     _fail(fails, "point_pointset:distance", f"point_pointset({case['p']},{case['q'][i]})^2 = {float(out[i])**2} but exact {ex}")
     elif kind == "ptseg":
         d, cp = out
@@ -739,18 +781,18 @@ def oracle(case):
                     if not (np.isfinite(d[i, j]) and np.all(np.isfinite(cp[i, j]))):
                         _fail(fails, "points_segments:zero-length-segment:nan" if a == b else "points_segments:nan", what)
                         continue
-                    if not _near(float(d[i, j]) ** 2, float(ex), 1e-9 * max(1, float(ex))):
+                    if not _near(float(d[i, j]) ** 2, float(ex), 1e-9 * max(S2, float(ex))):
                         _fail(fails, "points_segments:distance", what)
                     c = fr(cp[i, j])
-                    if float(x_pt_seg(c, a, b)[0]) > 1e-18 * max(1, float(nsq(a))) or not _near(float(nsq(sub(p, c))), float(ex), 1e-9 * max(1, float(ex))):
+                    if float(x_pt_seg(c, a, b)[0]) > 1e-18 * C2 or not _near(float(nsq(sub(p, c))), float(ex), 1e-9 * max(S2, float(ex))):
                         _fail(fails, "points_segments:closest-point", what)
     elif kind == "segseg":
         d, c1, c2 = out
         k = case.get("k", 0)
         p0, p1, sset = dec(case["p0"], k), dec(case["p1"], k), _segs(case, "set")
-        s2 = float(_scale2([p0, p1] + [p for s in sset for p in s]))
+        s2 = S2
         any_deg = p0 == p1 or any(a == b for a, b in sset)
-        coord2 = max([float(nsq(p)) for p in [p0, p1] + [p for s in sset for p in s]] + [s2])
+        coord2 = C2
         if len(d) != len(sset):
             _fail(fails, "segment_segment_set:length", f"{len(d)} distances for {len(sset)} segments")
         else:
@@ -771,11 +813,7 @@ def oracle(case):
                     elif not _near(float(nsq(sub(a1, a2))), ex, 1e-9 * max(s2, ex)):
                         bad = "closest-points-do-not-realise-distance"
                 if bad:
-                    key = f"segment_segment_set:{bad}"
-                    if k != 0 and not any_deg and oracle(dict(case, k=0)) is None:
-                        key = "segment_segment_set:tolerance-not-scale-invariant"
-                        what = f"(same configuration is handled correctly at scale 2^0, wrong at scale 2^{k}) " + what
-                    _fail(fails, key, what)
+                    _fail(fails, f"segment_segment_set:{bad}", what)
     elif kind == "segset":
         d, cp = out
         segs = _segs(case, "segs")
@@ -787,13 +825,13 @@ def oracle(case):
                 for j in range(n):
                     ex = 0.0 if i == j else float(x_seg_seg(*segs[i], *segs[j]))
                     what = f"segment_set entry ({i},{j}) of {case['segs']}: d^2={float(d[i, j])**2!r}, cp={cp[i, j].tolist()}, exact d^2={ex!r}"
-                    if not np.isfinite(d[i, j]) or not _near(float(d[i, j]) ** 2, ex, 1e-9 * max(1, ex)):
+                    if not np.isfinite(d[i, j]) or not _near(float(d[i, j]) ** 2, ex, 1e-9 * max(S2, ex)):
                         _fail(fails, "segment_set:distance", what)
                         continue
                     c = fr(cp[i, j])
-                    on_i = float(x_pt_seg(c, *segs[i])[0]) <= 1e-16
+                    on_i = float(x_pt_seg(c, *segs[i])[0]) <= 1e-16 * C2
                     to_j = float(x_pt_seg(c, *segs[j])[0]) if i != j else 0.0
-                    if not on_i or not _near(to_j, ex, 1e-9 * max(1, ex)):
+                    if not on_i or not _near(to_j, ex, 1e-9 * max(S2, ex)):
                         _fail(fails, "segment_set:closest-point", what)
     elif kind == "ptpoly":
         d, cp, inp = out
@@ -806,11 +844,11 @@ def oracle(case):
             what = (f"points_polygon(p={case['pts'][i]}, poly={case['poly']}): d^2={float(d[i])**2!r}, cp={cp[:, i].tolist()}, in_poly={bool(inp[i])} "
                     f"but exact d^2={float(ex)!r}, cp={fl(xcp)}, projection {'inside' if m > 0 else 'on boundary' if m == 0 else 'outside'}")
             pre = "points_polygon:projection-on-edge-extension" if ext else None
-            if not np.isfinite(d[i]) or not _near(float(d[i]) ** 2, float(ex), 1e-9 * max(1, float(ex))):
+            if not np.isfinite(d[i]) or not _near(float(d[i]) ** 2, float(ex), 1e-9 * max(S2, float(ex))):
                 _fail(fails, pre or "points_polygon:distance", what)
                 continue
             c = fr(cp[:, i])
-            if float(x_pt_poly(c, poly)[0]) > 1e-16 or not _near(float(nsq(sub(p, c))), float(ex), 1e-9 * max(1, float(ex))):
+            if float(x_pt_poly(c, poly)[0]) > 1e-16 * C2 or not _near(float(nsq(sub(p, c))), float(ex), 1e-9 * max(S2, float(ex))):
                 _fail(fails, pre or "points_polygon:closest-point", what)
             elif m != 0 and bool(inp[i]) != (m > 0):
                 _fail(fails, pre or "points_polygon:inside-flag", what)
@@ -828,16 +866,16 @@ def oracle(case):
                 rel.append(add(a, scl(ha / (ha - hb), sub(b, a))))
             ext = any(x_membership(poly, q) > 0 and x_on_edge_extension(poly, q) for q in rel)
             in_plane_end_only = ha == 0 and hb == 0 and x_membership(poly, a) < 0 and x_membership(poly, b) >= 0
-            if not np.isfinite(d[i]) or not _near(float(d[i]) ** 2, ex, 1e-9 * max(1, ex)):
+            if not np.isfinite(d[i]) or not _near(float(d[i]) ** 2, ex, 1e-9 * max(S2, ex)):
                 _fail(fails, "segments_polygon:point-on-edge-extension" if ext else "segments_polygon:distance", what)
                 continue
             c = fr(cp[:, i])
             d_seg, d_pol = math.sqrt(float(x_pt_seg(c, a, b)[0])), math.sqrt(float(x_pt_poly(c, poly)[0]))
             dd = math.sqrt(ex)
             # the single returned point lies on one of the two objects and is at the returned distance from the other
-            ok = (d_seg <= 1e-8 and _near(d_pol, dd, 1e-8 * max(1, dd))) or (d_pol <= 1e-8 and _near(d_seg, dd, 1e-8 * max(1, dd)))
+            ok = (d_seg <= 1e-8 * S and _near(d_pol, dd, 1e-8 * max(S, dd))) or (d_pol <= 1e-8 * S and _near(d_seg, dd, 1e-8 * max(S, dd)))
             if not ok:
-                if in_plane_end_only and max(abs(float(x) - float(y)) for x, y in zip(c, a)) <= 1e-9:
+                if in_plane_end_only and max(abs(float(x) - float(y)) for x, y in zip(c, a)) <= 1e-9 * S:
                     key = "segments_polygon:in-plane-only-end-inside:closest-point-is-start"
                 elif ext:
                     key = "segments_polygon:point-on-edge-extension"
@@ -846,8 +884,11 @@ def oracle(case):
                 _fail(fails, key, what + f"; the returned point is {d_seg:.3g} from the segment and {d_pol:.3g} from the polygon")
     if not fails:
         return None
-    fails.sort(key=lambda f: f["key"] in KNOWN_CLASS_KEYS)
-    return fails[0]
+    f = fails[0]
+    k = case.get("k", 0)
+    if k != 0 and not f["key"].endswith(":nan") and oracle(dict(case, k=0)) is None:
+        f = {"key": f["key"] + ":only-at-scale", "what": f"(the same configuration is handled correctly at scale 2^0, wrong at scale 2^{k}) " + f["what"]}
+    return f
 
 
 # ----------------------------------------------------------------------------- bookkeeping
